@@ -206,3 +206,14 @@ func (e *Engine) nopFunc() *ssa.Function {
 	}
 	return nil
 }
+
+func (e *Engine) derivedCtxType() types.Type {
+	for _, path := range harnessPkgDirs {
+		if p := e.Pkgs[path]; p != nil {
+			if t := p.Type("vndDerivedCtx"); t != nil {
+				return t.Type()
+			}
+		}
+	}
+	return nil
+}
